@@ -489,6 +489,104 @@ Theorem C02_affine_products_exact : forall a b s affs0 x,
   combi_integral true a b (combi_scheme_adaptive s) (tprod (affs affs0)) = affine_volume a b affs0.
 Proof. exact adaptive_affine_product_exact. Qed.
 
+(* ================= PHASE 4: point counts in both modes, tensor-grid order, vector-valued functions, quadrature for any family of
+   1D rules.  Proofs/StdCount.v, Model/StdCombiVec.v + Proofs/StdVec.v, Proofs/NestedQuadrature.v ================= *)
+From SG Require Import Model.StdCombiVec Proofs.StdCount Proofs.StdVec Proofs.NestedQuadrature.
+
+(* get_total_num_points in BOTH modes, closed-form scheme, every dimension, 1 <= lmin <= lmax, boundary on/off:
+   distinct_function_evals=True  -> number of DISTINCT points of all component grids = sum_l c_l prod_d N(l_d);
+   distinct_function_evals=False -> number of points of all component grids WITH doubles = sum_l prod_d N(l_d);
+   their difference is sum_l (1 - c_l) prod_d N(l_d) *)
+Theorem C02_total_points_both_modes : forall bd a b n lmin lmax,
+  1 <= lmin <= lmax -> box_ok a b -> length a = S n -> length b = S n ->
+  let cs := combi_scheme_standard (S n) lmin lmax in
+  Z.of_nat (length (union_points bd a b cs)) = combi_total_points bd cs /\
+  Z.of_nat (length (all_points bd a b cs)) = combi_total_points_naive bd cs /\
+  combi_total_points_naive bd cs - combi_total_points bd cs = sumZ (map (fun kv => (1 - snd kv) * comp_total_points bd (fst kv)) cs).
+Proof. exact std_total_points_both_modes. Qed.
+
+Theorem C02_total_points_naive_adaptive : forall bd a b s,
+  Inv s -> 1 <= s_lmin s -> length a = s_dim s -> length b = s_dim s ->
+  Z.of_nat (length (all_points bd a b (combi_scheme_adaptive s))) = combi_total_points_naive bd (combi_scheme_adaptive s).
+Proof. exact adaptive_total_points_naive. Qed.
+
+Theorem C02_distinct_points_le_naive : forall bd a b cs, (length (union_points bd a b cs) <= length (all_points bd a b cs))%nat.
+Proof. exact distinct_le_naive. Qed.
+
+(* VECTOR-VALUED FUNCTIONS: the matrix StandardCombi.__call__ accumulates (zeros; += interpolate_points * coefficient per component
+   grid; one interpolation per output component) is, entry by entry, the scalar combined interpolant of the output component at the
+   point: the combination acts componentwise, every scheme, every output length, every list of points *)
+Theorem C02_vector_valued_componentwise : forall bd a b cs (F : list Qc -> list Qc) nout pts,
+  combi_interp_matrix bd a b cs F nout pts
+  = map (fun x => map (fun k => combi_interp bd a b cs (out_comp F k) x) (seq 0 nout)) pts.
+Proof. exact combi_interp_matrix_componentwise. Qed.
+
+(* ... hence nodal exactness row-wise for vector-valued functions *)
+Theorem C02_nodal_exact_vector_valued : forall bd a b n lmin lmax (F : list Qc -> list Qc) nout x l0 c0,
+  0 <= lmin <= lmax -> box_ok a b -> length a = S n -> length b = S n -> length x = S n ->
+  In (l0, c0) (combi_scheme_standard (S n) lmin lmax) -> in_comp bd a b x l0 = true -> length (F x) = nout ->
+  combi_interp_matrix bd a b (combi_scheme_standard (S n) lmin lmax) F nout [x] = [F x].
+Proof. exact std_nodal_exact_vector. Qed.
+
+(* TENSOR-GRID REQUESTS: interpolate_grid is the point-wise interpolation at the cross product of the coordinate arrays in
+   get_cross_product (itertools.product) order, every dimension ... *)
+Theorem C02_interpolate_grid_is_pointwise : forall bd a b cs (F : list Qc -> list Qc) nout coords,
+  combi_interp_grid bd a b cs F nout coords
+  = map (fun x => map (fun k => combi_interp bd a b cs (out_comp F k) x) (seq 0 nout)) (crossQ coords).
+Proof. exact combi_interp_grid_pointwise. Qed.
+
+(* ... and that order is row-major with the FIRST coordinate array slowest and the last fastest: the point with index vector idx
+   sits at position idx_0 * n_1 * ... * n_{d-1} + idx_1 * n_2 * ... + ... + idx_{d-1}, for every dimension d *)
+Theorem C02_cross_product_order : forall idx coords, Forall2 (fun i c => (i < length c)%nat) idx coords ->
+  nth (flat_index idx (map (@length Qc) coords)) (crossQ coords) [] = pick idx coords.
+Proof. exact crossQ_nth. Qed.
+
+Theorem C02_interpolate_grid_entry : forall bd a b cs (F : list Qc -> list Qc) nout coords idx,
+  Forall2 (fun i c => (i < length c)%nat) idx coords ->
+  nth (flat_index idx (map (@length Qc) coords)) (combi_interp_grid bd a b cs F nout coords) []
+  = map (fun k => combi_interp bd a b cs (out_comp F k) (pick idx coords)) (seq 0 nout).
+Proof. exact combi_interp_grid_entry. Qed.
+
+(* QUADRATURE FOR ANY FAMILY OF 1D RULES (Clenshaw-Curtis, Leja, Simpson, non-uniform trapezoid ...: any weighted point lists
+   Q d l): a tensor function whose 1D factors have the level-threshold property (integrated to q_d by every rule of level >= tau_d,
+   to 0 by the rules of the levels lmin <= l < tau_d - the hierarchical basis functions of a nested family) is integrated by the
+   combination to [tau in index set] * prod q_d, every reachable adaptive scheme *)
+Theorem C02_hier_quadrature_any_family : forall (Q : list (Z -> fnl Qc)) lmin s gs tau qs,
+  Inv s -> s_lmin s = lmin -> length Q = s_dim s -> hier_factors lmin Q gs tau qs -> Forall (fun v => lmin <= v) tau ->
+  fam_combi_quad Q (combi_scheme_adaptive s) (tprod gs)
+  = if mem tau (index_set s) then fold_right Qcmult (Q2Qc 1) qs else Q2Qc 0.
+Proof. exact fam_hier_quadrature. Qed.
+
+(* non-vacuity: (1) d=3 cross product order: coordinate arrays of lengths 2,3,2, index vector (1,2,0) sits at position 1*6+2*2+0 = 10
+   (meshgrid-transposed orders put it elsewhere); (2) a 2-vector-valued function on d=2, lmin=1, lmax=3: the row at the sparse-grid
+   point (1/4, 1) is the function value; (3) counts for d=2, 1..3, boundary on: 49 distinct, 79+30 = 109 with doubles;
+   (4) the uniform trapezoidal rules are a family in the sense of C02_hier_quadrature_any_family: the 1D hierarchical hat of level 2,
+   index 1 on [0,1] has the level-threshold property with q = 1/4 *)
+Definition C02_trap_rule (bd : bool) (a0 b0 : Qc) (l : Z) : fnl Qc := combine (grid1 bd a0 b0 l) (weights1 bd a0 b0 l).
+Lemma C02_trap_rule_app1 bd a0 b0 l g : app1 Qc (C02_trap_rule bd a0 b0 l) g = dotQ (map g (grid1 bd a0 b0 l)) (weights1 bd a0 b0 l).
+Proof.
+  unfold C02_trap_rule, app1. generalize (grid1 bd a0 b0 l) (weights1 bd a0 b0 l).
+  induction l0 as [|p ps IH]; intros [|w ws]; simpl; try reflexivity. rewrite IH. ring.
+Qed.
+Example C02_phase4_nonvacuous :
+  nth 10 (crossQ [[Q2Qc 0; Q2Qc 1]; [Q2Qc 2; Q2Qc 3; Q2Qc 4]; [Q2Qc 5; Q2Qc 6]]) [] = [Q2Qc 1; Q2Qc 4; Q2Qc 5] /\
+  flat_index [1; 2; 0]%nat [2; 3; 2]%nat = 10%nat /\
+  map (map this) (combi_interp_matrix true [Q2Qc 0; Q2Qc 0] [Q2Qc 1; Q2Qc 2] (combi_scheme_standard 2 1 3)
+     (fun p => match p with [x; y] => [(x * x + y)%Qc; (x * y * y)%Qc] | _ => [] end) 2 [[Q2Qc (1 # 4); Q2Qc 1]])
+    = [[(17 # 16)%Q; (1 # 4)%Q]] /\
+  combi_total_points true (combi_scheme_standard 2 1 3) = 49 /\ combi_total_points_naive true (combi_scheme_standard 2 1 3) = 109 /\
+  hier_factors 1 [C02_trap_rule false (Q2Qc 0) (Q2Qc 1)] [hat1 (Q2Qc 0) (Q2Qc 1) 2 1] [2] [Q2Qc (1 # 4)].
+Proof.
+  split; [exact (C02_cross_product_order [1; 2; 0]%nat [[Q2Qc 0; Q2Qc 1]; [Q2Qc 2; Q2Qc 3; Q2Qc 4]; [Q2Qc 5; Q2Qc 6]]
+                   ltac:(repeat constructor))|].
+  split; [reflexivity|]. split; [vm_compute; reflexivity|]. split; [vm_compute; reflexivity|]. split; [vm_compute; reflexivity|].
+  constructor; [| |constructor].
+  - intros l Hl. rewrite C02_trap_rule_app1.
+    rewrite (hat1_trap_fine false (Q2Qc 0) (Q2Qc 1) 2 1 l); [apply Qc_is_canon; reflexivity|reflexivity|lia|exact Hl|simpl; lia].
+  - intros l Hl. rewrite C02_trap_rule_app1.
+    apply (StdHierTrap.hat1_trap_coarse false (Q2Qc 0) (Q2Qc 1) 2 1 l); [reflexivity|lia|lia|reflexivity].
+Qed.
+
 (* ONE Print Assumptions for the round-2 theorems (each Print Assumptions walks the whole dependency closure, ~0.7 s; the quick
    tier re-compiles this file on every run): the tuple below mentions every theorem of this section, so its assumption set is
    the union of theirs. *)
@@ -516,7 +614,16 @@ Definition C02_round2_all := (C02_union_equals_sparse_grid_adaptive,
   C02_point_coeff_sum_one_any_nested_family,
   C02_union_equals_sparse_grid_any_nested_family,
   C02_affine_products_see_only_coefficient_sum,
-  C02_affine_products_exact).
+  C02_affine_products_exact,
+  C02_total_points_both_modes,
+  C02_total_points_naive_adaptive,
+  C02_distinct_points_le_naive,
+  C02_vector_valued_componentwise,
+  C02_nodal_exact_vector_valued,
+  C02_interpolate_grid_is_pointwise,
+  C02_cross_product_order,
+  C02_interpolate_grid_entry,
+  C02_hier_quadrature_any_family).
 Print Assumptions C02_round2_all.
 
 (* non-vacuity: d=2, lmin=1, lmax=3 on [0,1]x[0,2] with boundary points: 49 distinct points = 1*(27+25+27) - 1*(15+15);
